@@ -121,7 +121,7 @@ def run_spec(ctx, rep, spec, model, only=None):
 
 
 def run(ctx, rep, model=True):
-    n = 6 if ctx.quick else 40
+    n = 12 if ctx.quick else 50
     for i in range(n):
         spec = plotgen.random_spec(ctx.rng, ndims=3, nlev=[2, 1, 3][i % 3], nf=[2, 3][i % 2], data="smallint", B=4,
                                    nblk=[[2, 1, 1], [1, 2, 1], [1, 1, 2]][i % 3], origin=(i % 4 != 3), aniso=(i % 2 == 0),
